@@ -32,7 +32,7 @@ from c17core import u, ustr  # noqa: E402
 PROP = "C17"
 VERIF = "/verif"
 REPLAY_DIR = os.environ.get("C17_REPLAY_DIR") or os.path.join(VERIF, "replays", PROP)
-EVIDENCE = os.path.join(VERIF, "evidence", PROP + ".json")
+EVIDENCE = os.path.join(os.environ.get("VERIF_EVIDENCE_DIR") or os.path.join(VERIF, "evidence"), PROP + ".json")
 SCHEMA = "/root/.vp/EVIDENCE.schema.json"
 BASE_SEED = int(os.environ.get("VERIF_SEED", "1"))
 PY = sys.executable
